@@ -6703,13 +6703,20 @@ bool SoPlexBase<R>::setSettings(const Settings& newSettings, const bool init)
 
    bool success = true;
 
+   // setIntParam(SYNCMODE) must still see the old sync mode to create the rational LP on a switch from ONLYREAL
+   const int oldSyncmode = intParam(SoPlexBase<R>::SYNCMODE);
+
    *_currentSettings = newSettings;
+
+   const int newSyncmode = _currentSettings->_intParamValues[SoPlexBase<R>::SYNCMODE];
+   _currentSettings->_intParamValues[SoPlexBase<R>::SYNCMODE] = oldSyncmode;
 
    for(int i = 0; i < SoPlexBase<R>::BOOLPARAM_COUNT; i++)
       success &= setBoolParam((BoolParam)i, _currentSettings->_boolParamValues[i], init);
 
    for(int i = 0; i < SoPlexBase<R>::INTPARAM_COUNT; i++)
-      success &= setIntParam((IntParam)i, _currentSettings->_intParamValues[i], init);
+      success &= setIntParam((IntParam)i, i == SoPlexBase<R>::SYNCMODE ? newSyncmode :
+                             _currentSettings->_intParamValues[i], init);
 
    for(int i = 0; i < SoPlexBase<R>::REALPARAM_COUNT; i++)
       success &= setRealParam((RealParam)i, _currentSettings->_realParamValues[i], init);
